@@ -31,6 +31,34 @@ type PoolMonitor struct{}
 type poolPre struct {
 	excessB, excessN math.Int
 	origins          int64
+	ledger, disputed math.Int // validators' tokens + unbonding entries; sum of the per-dispute records of stake taken
+}
+
+// stakeLedger is what validators and unbonding entries record in total.
+func stakeLedger(w *World) math.Int {
+	sk := w.App.StakingKeeper
+	tot := math.ZeroInt()
+	vals, _ := sk.GetAllValidators(w.Ctx)
+	for _, v := range vals {
+		tot = tot.Add(v.Tokens)
+	}
+	_ = sk.IterateUnbondingDelegations(w.Ctx, func(_ int64, ubd stakingtypes.UnbondingDelegation) bool {
+		for _, en := range ubd.Entries {
+			tot = tot.Add(en.Balance)
+		}
+		return false
+	})
+	return tot
+}
+
+func disputedTotal(w *World) (math.Int, int64) {
+	tot, n := math.ZeroInt(), int64(0)
+	_ = w.App.ReporterKeeper.DisputedDelegationAmounts.Walk(w.Ctx, nil, func(_ []byte, v reportertypes.DelegationsAmounts) (bool, error) {
+		tot = tot.Add(v.Total)
+		n += int64(len(v.TokenOrigins))
+		return false, nil
+	})
+	return tot, n
 }
 
 // poolState returns (bonded pool - bonded ledger, not-bonded pool - not-bonded ledger).
@@ -69,7 +97,8 @@ func countOrigins(w *World) int64 {
 
 func (PoolMonitor) Pre(w *World) interface{} {
 	b, n := poolState(w)
-	return &poolPre{excessB: b, excessN: n, origins: countOrigins(w)}
+	d, _ := disputedTotal(w)
+	return &poolPre{excessB: b, excessN: n, origins: countOrigins(w), ledger: stakeLedger(w), disputed: d}
 }
 
 func (PoolMonitor) Post(e *Explorer, before, w *World, pre interface{}, ev *Event, out Outcome) {
@@ -90,6 +119,28 @@ func (PoolMonitor) Post(e *Explorer, before, w *World, pre interface{}, ev *Even
 	// transition that credits validators with more than the pools received is caught even while older dust still covers it
 	if grow.IsNegative() {
 		fail("pool-excess-shrank", fmt.Sprintf("validators and unbonding entries were credited %s more than the staking pools received in this transition (excess %s -> %s)", grow.Neg(), p.excessB.Add(p.excessN), b.Add(n)))
+	}
+	// stake taken for a dispute leaves the ledger by exactly the amount the per-dispute record says was taken
+	// (transactions that also pay a fee from stake are left out: the fee leaves the same ledger)
+	if d, norig := disputedTotal(w); d.GT(p.disputed) && out.Kind == "tx-ok" {
+		fromBond := false
+		if ev.Msgs != nil {
+			for _, m := range ev.Msgs(before) {
+				switch x := m.(type) {
+				case *disputetypes.MsgProposeDispute:
+					fromBond = fromBond || x.PayFromBond
+				case *disputetypes.MsgAddFeeToDispute:
+					fromBond = fromBond || x.PayFromBond
+				}
+			}
+		}
+		if !fromBond {
+			e.RC.Count("escrows_compared_with_record", 1)
+			taken, recorded := p.ledger.Sub(stakeLedger(w)), d.Sub(p.disputed)
+			if diff := taken.Sub(recorded); diff.Abs().GT(math.NewInt(norig)) {
+				fail("taken-differs-from-record", fmt.Sprintf("%s left validators and unbonding entries, the dispute's record of stake taken grew by %s", taken, recorded))
+			}
+		}
 	}
 	// state predicates are reported at the transition that breaks (or worsens) them
 	if b.IsNegative() && (!p.excessB.IsNegative() || b.LT(p.excessB)) {
@@ -471,8 +522,8 @@ func (AggMonitor) Post(e *Explorer, before, w *World, pre interface{}, ev *Event
 	}
 	if changed {
 		probeAggregateGetters(e, w, now, fail)
-		checkNewSnapshots(e, before, w, now, fail)
 	}
+	checkNewSnapshots(e, before, w, now, fail) // snapshots are also created on request, without any change to the aggregates
 	for _, a := range fresh {
 		q := string(a.QueryId)
 		e.RC.Count("aggregates_appended", 1)
